@@ -348,6 +348,53 @@ pub fn c02_corpus<V: Fv>(seed: u64, thorough: bool, out: &mut Shards) {
             }
         }
     }
+    // s2 with ONE coefficient beyond the centred range of Z_q (6144 < |x| <= 12159: decodable, far outside the bound) and a public key
+    // solved so that s1 is tiny: the norm must be taken on the decoded integers, not on residues (accepted encodings s_i -+ q otherwise)
+    {
+        let mut tw = 500u64;
+        let xs: Vec<i16> = if thorough { vec![5834, 6144, 6145, 6456, 7000, 8000, 8382, 8383, 9000, 11000, 12000, 12158, 12159] } else { vec![6145, 8000, 8383, 12159] };
+        for &x in &xs {
+            for &sign in &[1i16, -1] {
+                if !thorough && sign == -1 && x != 8000 {
+                    continue;
+                }
+                for attempt in 0..4u64 {
+                    tw += 1;
+                    let mut s2: Vec<i16> = vec![0i16; n];
+                    s2[((tw + attempt) as usize * 37) % n] = sign * x;
+                    if attempt > 0 {
+                        s2[(tw as usize * 11 + 3) % n] += 1;
+                    }
+                    let ns2: i64 = s2.iter().map(|&v| (v as i64) * (v as i64)).sum();
+                    if let Some(ev) = general_boundary_event::<V>(&mut rng, &s2, ns2 + 1000 + tw as i64, tw, "large-coefficient-beyond-centred-range") {
+                        out.emit(ev);
+                        break;
+                    }
+                }
+            }
+        }
+    }
+    // s1 extreme on whole aligned blocks (+-6144 on 16, 64, 128, n consecutive coefficients): partial sums of the norm at their largest
+    for (len, off) in [(16usize, 0usize), (64, 0), (64, 64), (64, n - 64), (128, 128), (n / 2, n / 2), (n, 0)] {
+        if !thorough && (len == 16 || len == 128) {
+            continue;
+        }
+        for pattern in 0..2 {
+            let mut salt = [0u8; 40];
+            rng.fill_bytes(&mut salt);
+            let msg = msg_of_len(&mut rng, 11);
+            let c = verif::hash_to_point(&[salt.to_vec(), msg.clone()].concat(), n);
+            let mut e = vec![0i16; n];
+            for i in 0..len {
+                e[off + i] = if pattern == 0 || i % 2 == 0 { 6144 } else { -6144 };
+            }
+            let h = pk_for_s1(&c, &e, 0, 1);
+            let mut s2 = vec![0i16; n];
+            s2[0] = 1;
+            let body = pack_coeffs(&s2, V::SIG_LEN - 41);
+            out.emit(verify_event::<V>(&msg, &sig_bytes::<V>(&salt, &body), &pk_bytes(&h, V::LOGN), "s1-extreme-block"));
+        }
+    }
     // the corpus of extreme hash streams: c must be the specification's point also when the stream is consumed far beyond its usual
     // length or contains long runs of rejected chunks (accept at the bound / reject one above)
     for (j, (i, tag)) in crate::corpus::H2P_EXTREME.iter().enumerate().take(if thorough { 12 } else { 6 }) {
